@@ -239,6 +239,8 @@ def run(ctx):
                 st["hist"]["parse_class_%d" % cls] += 1
     except Exception as e:
         ctx.notes.append("harness: fallback-binary-only (%s)" % str(e)[:200])
+        ctx.violation("correspondence-mismatch", "the real functions could not be reached through the harness (#[path] inclusion of /repo/src): %s" % str(e)[:300], input={}, concrete=False,
+                      correspondence="harness build / run")
     ctx.coverage.update(
         evaluations=st["evaluations"], distinct_nontrivial=len(st["distinct"]), traces_validated_against_impl=st["agreed"],
         rule="files whose mtimes lie on the grid a-1, a, a+1, b-1, b, b+1 (three in four with a sub-second part .5, .999999999 or .000000001) around every literal's interval [a, b] (leap day, month/year ends, the epoch and days before it - negative time_t -, 2038) x literals at day/hour/minute/second precision with '-' and ':' separators, with and without leading zeros in month/day/hour/minute/second, quoted and unquoted, plus today/yesterday/+N/-N against the date read at run time x the eight comparison operators, TZ=UTC; rows vs interval arithmetic in Z (spec) and vs model.Datetime + the regenerated comparison table; `modified` text vs format_datetime; parse_datetime outcome classes through the harness on malformed strings. non-trivial = a comparison selecting a proper non-empty subset of the %d files" % len(grid),
